@@ -47,7 +47,7 @@ def make_malformed_packages(seed, count):
     pkgs = []
     k = 0
     tries = 0
-    kinds = ["cycle", "dup", "orphan", "dupfield", "cycle_mv", "dup_mv", "orphan_self", "dup_sets"]
+    kinds = ["cycle", "dup", "orphan", "dupfield", "cycle_mv", "dup_mv", "orphan_self", "dup_sets", "cycle_self_bind"]
     while len(pkgs) < count and tries < count * 20:
         tries += 1
         kind = kinds[len(pkgs) % len(kinds)]
@@ -551,10 +551,10 @@ def _stage(seed, tier, want_malformed, key="S-x"):
     mod = vlib.new_scratch_module("s")
     if tier == "quick":
         pkgs = make_packages(seed, 10, 8, files_per_pkg=2)
-        mal = make_malformed_packages(seed, 40) if want_malformed else []
+        mal = make_malformed_packages(seed, 45) if want_malformed else []
     else:
         pkgs = make_packages(seed, 60, 12, files_per_pkg=3)
-        mal = make_malformed_packages(seed, 160) if want_malformed else []
+        mal = make_malformed_packages(seed, 180) if want_malformed else []
     allp = pkgs + mal
     dirs = {}
     for p in allp:
